@@ -10,6 +10,7 @@ import (
 	"sort"
 	"strconv"
 	"strings"
+	"sync/atomic"
 	"time"
 
 	"github.com/klev-dev/klevdb"
@@ -638,7 +639,7 @@ var ctrlEpilogues = [][]string{
 // below or above the rollover threshold.
 func (cr *concRun) buildPreset(kind string) *ctrlState {
 	st := &ctrlState{}
-	first := cr.pubOp(99, 4, true) // > rollover: next publish rolls
+	first := cr.pubOp(99, 4, true)   // > rollover: next publish rolls
 	first.Pub[1].Key = []byte("old") // a key that only lives in the oldest segment: lookups walk all the way down
 	o := cr.seqOp(first)
 	st.readerFirst, st.readerMid, st.readerLast = o.Next-4, o.Next-3, o.Next-1
@@ -996,6 +997,11 @@ func runC08(cfg *RunCfg, rep *Reporter, cov *Cov, ev *Evidence) {
 			runChild(cfg, rep, cov, "follow", i)
 		}
 	}
+	for i := 0; i < 2; i++ {
+		if mine(cfg, i+6) && on("stress") {
+			runChild(cfg, rep, cov, "statwalk", i)
+		}
+	}
 	finishRace(cfg, rep, cov, ev, "C08")
 }
 
@@ -1005,6 +1011,9 @@ func fillC08Evidence(cfg *RunCfg, rep *Reporter, cov *Cov, ev *Evidence) {
 	ev.Coverage["race_reports_without_klevdb_frame"] = cov.Get("race.harness")
 	ev.Coverage["race_reports_distinct"] = int64(cov.SetSize("race.distinct"))
 	ev.Coverage["shards"] = 8
+	ev.Coverage["statwalk_runs"] = cov.Get("statwalk.runs")
+	ev.Coverage["statwalk_stat_calls"] = cov.Get("statwalk.stats")
+	ev.Coverage["statwalk_rebasing_deletes"] = cov.Get("statwalk.deletes")
 	ev.Coverage["follow_runs"] = cov.Get("follow.runs")
 	ev.Coverage["follow_publishes"] = cov.Get("follow.publishes")
 	ev.Coverage["follow_consume_calls"] = cov.Get("follow.consumes")
@@ -1217,6 +1226,22 @@ func init() {
 		fmt.Printf("S\tpublishes=%d\tdeletes=%d\n", cov.Get("hammer.publishes"), cov.Get("hammer.deletes"))
 		return 0
 	}
+	subcommands["statwalk"] = func(args []string) int {
+		if len(args) < 2 {
+			return 2
+		}
+		idx, _ := strconv.Atoi(args[0])
+		cfg := &RunCfg{Property: "C08", Scratch: args[1], Replays: args[1]}
+		rep := NewReporter(cfg)
+		cov := NewCov()
+		runStatWalk(cfg, rep, cov, idx)
+		for _, sig := range rep.order {
+			v := rep.viol[sig]
+			fmt.Printf("V\t%s\t%s\n", v.Sig, strings.ReplaceAll(v.What, "\n", " "))
+		}
+		fmt.Printf("S\tstats=%d\tdeletes=%d\n", cov.Get("statwalk.stats"), cov.Get("statwalk.deletes"))
+		return 0
+	}
 	subcommands["follow"] = func(args []string) int {
 		if len(args) < 2 {
 			return 2
@@ -1370,4 +1395,74 @@ func runChild(cfg *RunCfg, rep *Reporter, cov *Cov, mode string, idx int) {
 			cov.Distinct("c08", "overlap:"+mode)
 		}
 	}
+}
+
+// runStatWalk: many sealed segments; one goroutine deletes the first message of every segment (each
+// delete renames the segment to a new base), from the newest to the oldest, while Stat and a full
+// scan run in a loop. Every Stat must lie within the bounds given by the deletes around it, every
+// scan must see each segment's survivors. Bounded by the number of segments.
+func runStatWalk(cfg *RunCfg, rep *Reporter, cov *Cov, idx int) {
+	opts := OpenOpts{KeyIndex: idx%2 == 0, TimeIdx: idx%2 == 1, Rollover: 100}
+	cr := newConcRun(cfg, rep, cov, fmt.Sprintf("sw%d", idx), opts)
+	if cr == nil {
+		return
+	}
+	defer cr.close()
+	nSeg := 120
+	per := 4
+	val := make([]byte, 30)
+	for sgm := 0; sgm < nSeg; sgm++ {
+		msgs := make([]klevdb.Message, per)
+		for j := range msgs {
+			msgs[j] = klevdb.Message{Key: []byte("a"), Value: val}
+		}
+		if _, err := cr.l.Publish(msgs); err != nil {
+			return
+		}
+	}
+	total := nSeg * per
+	var started, finished atomic.Int64
+	done := make(chan struct{})
+	var delErr error
+	go func() {
+		defer close(done)
+		for sgm := nSeg - 2; sgm >= 0; sgm-- { // not the head
+			started.Add(1)
+			del, _, err := cr.l.Delete(map[int64]struct{}{int64(sgm * per): {}})
+			if err != nil || len(del) != 1 {
+				delErr = fmt.Errorf("Delete(%d) = %d messages, %v", sgm*per, len(del), err)
+				return
+			}
+			finished.Add(1)
+		}
+	}()
+	report := func(sig, what string) {
+		rep.Report(Violation{Property: "C08", Sig: "concmon|" + sig, What: what, Replay: map[string]any{"phase": "statwalk", "index": idx}})
+	}
+	for {
+		fin0 := finished.Load()
+		st, err := cr.l.Stat()
+		sta1 := started.Load()
+		cov.Add("statwalk.stats", 1)
+		if err != nil {
+			report("error:stat:"+errClass(err), "Stat failed while deletes were in progress: "+errText(err))
+			break
+		}
+		lo, hi := total-int(sta1), total-int(fin0)
+		if st.Messages < lo || st.Messages > hi || st.Segments != nSeg {
+			report("stat:out-of-bounds", fmt.Sprintf("Stat reported %d messages in %d segments; the log has %d segments and the deletes around the call allow only %d..%d messages", st.Messages, st.Segments, nSeg, lo, hi))
+			break
+		}
+		select {
+		case <-done:
+			if delErr != nil {
+				report("error:Delete:statwalk", delErr.Error())
+			}
+			cov.Add("statwalk.deletes", finished.Load())
+			return
+		default:
+		}
+	}
+	<-done
+	cov.Add("statwalk.deletes", finished.Load())
 }
